@@ -102,6 +102,18 @@ int main(void) {
           sdk_out("SETON %u %u %u", r, r ? ch : 0, r ? on : 0);
           free(tp); free(mp);
         }
+      } else if (!strcmp(op, "topicrs") && ops_ntok == 3) {
+        static unsigned char t[4096], m[4096];
+        long tn = ops_hex(ops_tok[1], t, sizeof(t)), mn = ops_hex(ops_tok[2], m, sizeof(m));
+        if (tn < 0 || mn < 0 || !supla_esp_mqtt_vars) sdk_out("BADOP");
+        else {
+          char *tp = malloc(tn ? tn : 1), *mp = malloc(mn ? mn : 1);
+          memcpy(tp, t, tn); memcpy(mp, m, mn);
+          uint8 ch = 0, act = 0, pct = 0, tilt = 0;
+          uint8 r = supla_esp_mqtt_parser_rs_fb_action(tp, tn, mp, mn, &ch, &act, &pct, &tilt);
+          sdk_out("RSACT %u %u %u %u %u", r, r ? ch : 0, r ? act : 0, r ? pct : 0, r ? tilt : 0);
+          free(tp); free(mp);
+        }
       } else sdk_out("BADOP");
     }
     ops_done();
